@@ -67,8 +67,11 @@ func runAskerLife(seed int64, round int) (*Trace, error) {
 	defer func() { go sys.Stop(2 * time.Second) }()
 
 	target, err := sys.ActorOf(vivid.ActorFN(func(ctx vivid.ActorContext) {
-		if m, ok := ctx.Message().(lifeReq); ok && m.Reply {
-			ctx.Reply(lifeRep{ID: m.ID})
+		if m, ok := ctx.Message().(lifeReq); ok {
+			ev(map[string]any{"e": "Req", "m": m.ID})
+			if m.Reply {
+				ctx.Reply(lifeRep{ID: m.ID})
+			}
 		}
 	}), vivid.WithActorName("target"))
 	if err != nil {
@@ -81,6 +84,10 @@ func runAskerLife(seed int64, round int) (*Trace, error) {
 	slowChild := route == "restart-kill"
 	childKill := make(chan struct{}, 4)
 	var launches atomic.Int32
+	askInKill := rng.Intn(3) == 0
+	var extraMu sync.Mutex
+	var extra []lifeAsk
+	var issue func(ctx vivid.ActorContext, a lifeAsk)
 	askerBehaviour := func(ctx vivid.ActorContext) {
 		switch m := ctx.Message().(type) {
 		case *vivid.OnLaunch:
@@ -93,9 +100,27 @@ func runAskerLife(seed int64, round int) (*Trace, error) {
 					}
 				}), vivid.WithActorName("slow"))
 			}
+		case *vivid.OnKill:
+			// an Ask made while the asker is already being stopped or restarted (flushing state on the way out)
+			if askInKill {
+				extraMu.Lock()
+				a := lifeAsk{ID: 100 + len(extra), Timeout: 4 * time.Second, Reply: len(extra)%2 == 0}
+				extra = append(extra, a)
+				extraMu.Unlock()
+				issue(ctx, a)
+			}
 		case lifeGo:
 			for _, a := range m.Asks {
-				a := a
+				issue(ctx, a)
+			}
+			asked <- struct{}{}
+		case lifeFail:
+			ctx.Failed("scripted failure of the asker")
+		}
+	}
+	issue = func(ctx vivid.ActorContext, a lifeAsk) {
+		{
+			{
 				ev(map[string]any{"e": "Ask", "m": a.ID, "n": int(a.Timeout / time.Microsecond)})
 				start := time.Now()
 				f := ctx.Ask(target, lifeReq{ID: a.ID, Reply: a.Reply}, a.Timeout)
@@ -126,9 +151,6 @@ func runAskerLife(seed int64, round int) (*Trace, error) {
 					}()
 				}
 			}
-			asked <- struct{}{}
-		case lifeFail:
-			ctx.Failed("scripted failure of the asker")
 		}
 	}
 	decision := vivid.SupervisionDecisionStop
@@ -215,7 +237,10 @@ func runAskerLife(seed int64, round int) (*Trace, error) {
 	}
 	// everything the dead asker had asked must be complete by now; give the waiters' goroutines time to say so
 	allDone := func() bool {
-		for _, a := range asks {
+		extraMu.Lock()
+		all := append(append([]lifeAsk{}, asks...), extra...)
+		extraMu.Unlock()
+		for _, a := range all {
 			if _, ok := done.Load(a.ID); !ok {
 				return false
 			}
@@ -226,6 +251,9 @@ func runAskerLife(seed int64, round int) (*Trace, error) {
 		time.Sleep(time.Millisecond)
 	}
 	time.Sleep(2 * time.Millisecond) // the second waiter of the last future
+	extraMu.Lock()
+	asks = append(asks, extra...)
+	extraMu.Unlock()
 	for _, a := range asks {
 		if _, ok := done.Load(a.ID); !ok {
 			ev(map[string]any{"e": "Pending", "m": a.ID})
@@ -237,5 +265,5 @@ func runAskerLife(seed int64, round int) (*Trace, error) {
 	out := append([]map[string]any{}, events...)
 	mu.Unlock()
 	return &Trace{Events: out, Class: "asker-ends-" + route, Name: fmt.Sprintf("life#%d", round),
-		Scenario: map[string]any{"route": route, "asks": asks, "register_delay_us": delayUS, "seed": seed, "round": round}}, nil
+		Scenario: map[string]any{"route": route, "ask_in_onkill": askInKill, "asks": asks, "register_delay_us": delayUS, "seed": seed, "round": round}}, nil
 }
